@@ -27,6 +27,10 @@ var planShapes = []string{
 
 func drawFaultCase(t *rapid.T) *core.Case {
 	wo := gen.WindowOpts{MaxSteps: 25, NoTail: true}
+	if rapid.IntRange(0, 3).Draw(t, "longwindow") == 0 {
+		// more than three batches: read-ahead buffers fill up and faults land behind them
+		wo = gen.WindowOpts{MinSteps: 31, MaxSteps: 70, NoTail: true}
+	}
 	var c *core.Case
 	if rapid.IntRange(0, 2).Draw(t, "shape") == 0 {
 		c = drawGeneral(t, gen.Profile{MaxDepth: 3}, wo, gen.DataOpts{Specials: true, MaxSeries: 8, MinSeries: 3, Histogram: true})
@@ -88,7 +92,9 @@ func TestC13(t *testing.T) {
 			c.Mode = "extreme"
 			return c
 		}
-		return drawFaultCase(t)
+		c := drawFaultCase(t)
+		c.Note = rapid.SampledFrom([]string{"", "", "panic=str", "panic=err"}).Draw(t, "panicvalue")
+		return c
 	})
 }
 
